@@ -11,10 +11,10 @@ extern "C" {
 #include "a/utf.h"
 }
 
-enum { L_REALLOC, L_FMT_EXACT_FIT, L_FMT_GROW, L_TRIM_EMPTIES, L_EXIT_FULL, L_EXIT, L_NUL_BYTE, L_HIGH_BYTE, L_UTF, L_SETN_GROW, L_SWAP, L_CMP, L_LEN_EQ_MEM, L_FAULT_HIT, L_FAULT_LATE, L_CAT_OTHER, L_GETN, L_LEN64, L_BIG_RESERVE, L_ACCESSORS, L_FMT_FAILS, L_SETM_EXACT };
+enum { L_REALLOC, L_FMT_EXACT_FIT, L_FMT_GROW, L_TRIM_EMPTIES, L_EXIT_FULL, L_EXIT, L_NUL_BYTE, L_HIGH_BYTE, L_UTF, L_SETN_GROW, L_SWAP, L_CMP, L_LEN_EQ_MEM, L_FAULT_HIT, L_FAULT_LATE, L_CAT_OTHER, L_GETN, L_LEN64, L_BIG_RESERVE, L_ACCESSORS, L_FMT_FAILS, L_SETM_EXACT, L_SIGNED_CHAR_ARG };
 static char const *const labels[] = {"reallocation", "catf_exactly_fills_spare_capacity", "catf_reallocates", "trim_empties_string", "exit_with_len_eq_mem", "exit",
                                      "nul_byte_in_content", "byte_ge_0x80", "utf_catc", "setn_grows_length", "swap", "compare", "len_eq_mem_state",
-                                     "fault_hit_library_request", "fault_not_in_first_op", "cat_other_string", "getn", "len_ge_64", "reserve_ge_200_up_to_64KiB", "index_accessors_utf_len_raw_compare", "catf_conversion_refused_by_the_formatter", "setm__capacity_set_exactly_incl_shrink_to_fit", nullptr};
+                                     "fault_hit_library_request", "fault_not_in_first_op", "cat_other_string", "getn", "len_ge_64", "reserve_ge_200_up_to_64KiB", "index_accessors_utf_len_raw_compare", "catf_conversion_refused_by_the_formatter", "setm__capacity_set_exactly_incl_shrink_to_fit", "catc_argument_from_a_signed_char", nullptr};
 static char const *const metrics[] = {"max_len", "faulty_executions", nullptr};
 static uint8_t const dict[] = {0x20, 0x09, 0x0A, 0x25, 0x73, 0xC3, 0xE2, 0xF0};
 #ifdef VP_FAULT
@@ -269,12 +269,15 @@ static void run_history(Tape &t, Ctx &cx, uint64_t fail_at, int mode, uint64_t *
             int c = t.u8();
             if (c == 0) { cx.label(L_NUL_BYTE); }
             if (c >= 0x80) { cx.label(L_HIGH_BYTE); }
+            // the argument is an int holding a character: a byte >= 0x80 taken from a plain (signed) char arrives as a negative
+            // number, 0xFF as -1 - which is also the failure value, so that success is then read from the fault counter
+            if (c >= 0x80 && (r.opno & 1)) { c -= 256; cx.label(L_SIGNED_CHAR_ARG); }
             for (int attempt = 0; attempt < 2; ++attempt)
             {
                 uint64_t fb = g_shim.faults;
-                cx.log("s%d catc%s(0x%02x) ...\n", si, under ? "_" : "", c);
+                cx.log("s%d catc%s(%d) ...\n", si, under ? "_" : "", c);
                 int rc = under ? a_str_catc_(s.s, c) : a_str_catc(s.s, c);
-                if (rc != c)
+                if (rc != c || (c == ~0 && g_shim.faults > fb))
                 {
                     VP_CHECK(cx, rc == ~0, "str:catc_return", "catc returned %d", rc);
                     expect_fault(r, fb, "catc");
